@@ -47,6 +47,7 @@ var observeTick int
 
 func observeMW(m *cors.Middleware, suite []Req) (o obs, pan string) {
 	pan = catch(func() {
+		pokeGetters(m)
 		srv := longLived[m]
 		observeTick++
 		if srv == nil || observeTick%2 == 0 {
@@ -163,6 +164,7 @@ func (e histEngine) Probes() []string {
 }
 
 func (e histEngine) Gen(r *R, tier string) any {
+	allowHugeOriginLists = false
 	observeUnknownAPI = true
 	p := &HistPlan{Perm: r.Uint64()}
 	n := r.Range(1, 3)
